@@ -3,16 +3,534 @@ From Coq Require Import ZArith QArith Qround Qabs Bool Lia Lqa.
 From PV Require Import Base.QUtil Gen.GenTrap Model.Trap.
 Open Scope Q_scope.
 
-Lemma finish_fields p G S R d g : finish p G S R d = OK g ->
-  t_area g = t_amplitude g * (t_flat g + t_rise g / 2 + t_fall g / 2) /\
-  t_flat_area g = t_amplitude g * t_flat g.
+(* ---------------------------------------------------------------------------------------------- *)
+(* arithmetic helpers *)
+
+Lemma isz_true q : isz q = true -> q == 0.
+Proof. unfold isz. apply Qeq_bool_eq. Qed.
+Lemma isz_false q : isz q = false -> ~ q == 0.
+Proof. unfold isz. intros H E. apply Qeq_eq_bool in E. congruence. Qed.
+
+Lemma Qltb_false a b : Qltb a b = false -> b <= a.
+Proof. unfold Qltb. intro H. apply negb_false_iff in H. apply Qle_bool_iff in H. exact H. Qed.
+
+Lemma Qle_bool_false a b : Qle_bool a b = false -> b < a.
 Proof.
-  destruct p as [[[amp r0] fl] f0]. unfold finish.
-  destruct (match r0, f0 with None, None => _ | _, _ => _ end) as [r f].
-  destruct (Qltb _ _); [discriminate|].
-  destruct r as [r|]; [|discriminate].
-  destruct (isz r); [discriminate|]. destruct (Qltb _ _); [discriminate|].
-  destruct f as [f|]; [|discriminate].
-  destruct (isz f); [discriminate|]. destruct (Qltb _ _); [discriminate|].
-  intro H; inversion H; subst; cbn. split; reflexivity.
+  intro H. apply Qnot_le_lt. intro L. apply Qle_bool_iff in L. congruence.
+Qed.
+
+Lemma eps_nonneg : 0 <= eps.
+Proof. unfold eps, trap_eps. apply Qle_bool_iff. vm_compute. reflexivity. Qed.
+
+Lemma Qdiv_mul x b : ~ b == 0 -> x / b * b == x.
+Proof. intro H. field. exact H. Qed.
+
+Lemma Qdiv_le_iff x b c : 0 < b -> (x / b <= c <-> x <= c * b).
+Proof.
+  intro Hb. assert (E : x / b * b == x) by (apply Qdiv_mul; lra).
+  rewrite <- E at 2. symmetry. apply Qmult_le_r. exact Hb.
+Qed.
+Lemma Qdiv_lt_iff x b c : 0 < b -> (x / b < c <-> x < c * b).
+Proof.
+  intro Hb. assert (E : x / b * b == x) by (apply Qdiv_mul; lra).
+  rewrite <- E at 2. symmetry. apply Qmult_lt_r. exact Hb.
+Qed.
+Lemma Qle_div_iff x b c : 0 < b -> (c <= x / b <-> c * b <= x).
+Proof.
+  intro Hb. assert (E : x / b * b == x) by (apply Qdiv_mul; lra).
+  rewrite <- E at 2. symmetry. apply Qmult_le_r. exact Hb.
+Qed.
+Lemma Qlt_div_iff x b c : 0 < b -> (c < x / b <-> c * b < x).
+Proof.
+  intro Hb. assert (E : x / b * b == x) by (apply Qdiv_mul; lra).
+  rewrite <- E at 2. symmetry. apply Qmult_lt_r. exact Hb.
+Qed.
+
+Lemma Qabs_div_pos a b : 0 < b -> Qabs (a / b) == Qabs a / b.
+Proof.
+  intro Hb. unfold Qdiv. rewrite Qabs_Qmult.
+  rewrite (Qabs_pos (/ b)); [reflexivity|]. apply Qlt_le_weak, Qinv_lt_0_compat, Hb.
+Qed.
+
+Lemma Qdiv_pos_nonneg a b : 0 <= a -> 0 < b -> 0 <= a / b.
+Proof. intros Ha Hb. apply Qle_div_iff; [exact Hb|]. lra. Qed.
+
+Lemma Qmax_spec a b : (a <= b /\ Qmax a b = b) \/ (b < a /\ Qmax a b = a).
+Proof.
+  unfold Qmax. destruct (Qle_bool a b) eqn:E.
+  - left. split; [apply Qle_bool_iff, E|reflexivity].
+  - right. split; [apply Qle_bool_false, E|reflexivity].
+Qed.
+
+Lemma inject_Z_le_iff (x y : Z) : (x <= y)%Z <-> inject_Z x <= inject_Z y.
+Proof. rewrite Zle_Qle. reflexivity. Qed.
+
+(* Qceiling is the least integer above *)
+Lemma Qceiling_le_iff (x : Q) (k : Z) : (Qceiling x <= k)%Z <-> x <= inject_Z k.
+Proof.
+  split; intro H.
+  - pose proof (Qle_ceiling x). rewrite Zle_Qle in H. lra.
+  - pose proof (Qceiling_lt x) as L. 
+    assert (inject_Z (Qceiling x - 1) < inject_Z k) by lra.
+    rewrite <- Zlt_Qlt in H0. lia.
+Qed.
+
+(* ---- ceil_raster: math.ceil(t / r) * r -------------------------------------------------------- *)
+Lemma ceil_raster_ge t r : 0 < r -> t <= ceil_raster t r.
+Proof.
+  intro Hr. unfold ceil_raster. pose proof (Qle_ceiling (t / r)) as H.
+  apply Qdiv_le_iff in H; [exact H|exact Hr].
+Qed.
+
+Lemma ceil_raster_lt t r : 0 < r -> ceil_raster t r < t + r.
+Proof.
+  intro Hr. unfold ceil_raster. pose proof (Qceiling_lt (t / r)) as H.
+  unfold Z.sub in H. rewrite inject_Z_plus, inject_Z_opp in H. change (inject_Z 1) with 1 in H.
+  assert (H1 : inject_Z (Qceiling (t / r)) - 1 < t / r) by lra.
+  apply Qlt_div_iff in H1; [|exact Hr]. lra.
+Qed.
+
+(* it is the least multiple of the raster that is >= t *)
+Lemma ceil_raster_least t r (k : Z) : 0 < r -> t <= inject_Z k * r -> ceil_raster t r <= inject_Z k * r.
+Proof.
+  intros Hr H. unfold ceil_raster. apply Qmult_le_r; [exact Hr|].
+  rewrite <- Zle_Qle. apply Qceiling_le_iff. apply Qdiv_le_iff; assumption.
+Qed.
+
+Lemma ceil_raster_count_nonneg t r : 0 < r -> 0 <= t -> (0 <= Qceiling (t / r))%Z.
+Proof.
+  intros Hr Ht. assert (H : (Qceiling 0 <= Qceiling (t / r))%Z).
+  { apply Qceiling_resp_le. apply Qdiv_pos_nonneg; assumption. }
+  exact H.
+Qed.
+
+(* ---- ceil_sqrt_div: exact ceil(sqrt(x)/r) ------------------------------------------------------ *)
+Lemma ceil_sqrt_div_nonneg x r : (0 <= ceil_sqrt_div x r)%Z.
+Proof. apply Z.sqrt_up_nonneg. Qed.
+
+Lemma sq_le_inject (m : Z) (y : Q) : y <= inject_Z (m * m) <-> (Qceiling y <= m * m)%Z.
+Proof. symmetry. apply Qceiling_le_iff. Qed.
+
+(* n = ceil_sqrt_div x r is the least non-negative integer with (n*r)^2 >= x *)
+Lemma ceil_sqrt_div_iff x r (m : Z) : 0 < r -> 0 <= x -> (0 <= m)%Z ->
+  ((ceil_sqrt_div x r <= m)%Z <-> x <= (inject_Z m * r) * (inject_Z m * r)).
+Proof.
+  intros Hr Hx Hm. unfold ceil_sqrt_div.
+  assert (Hrr : 0 < r * r) by (apply Qmult_lt_0_compat; exact Hr).
+  assert (Hc : (0 <= Qceiling (x / (r * r)))%Z).
+  { apply (ceil_raster_count_nonneg x (r * r)); assumption. }
+  rewrite <- (Z.sqrt_up_le_square _ m Hc Hm).
+  rewrite Qceiling_le_iff. rewrite inject_Z_mult.
+  rewrite (Qdiv_le_iff x (r * r) _ Hrr).
+  assert (E : inject_Z m * inject_Z m * (r * r) == inject_Z m * r * (inject_Z m * r)) by ring.
+  rewrite E. reflexivity.
+Qed.
+
+Lemma ceil_sqrt_div_spec x r : 0 < r -> 0 <= x ->
+  x <= (inject_Z (ceil_sqrt_div x r) * r) * (inject_Z (ceil_sqrt_div x r) * r).
+Proof.
+  intros Hr Hx. apply (ceil_sqrt_div_iff x r _ Hr Hx (ceil_sqrt_div_nonneg x r)). lia.
+Qed.
+
+Lemma ceil_sqrt_div_least x r (m : Z) : 0 < r -> 0 <= x -> (0 <= m)%Z ->
+  x <= (inject_Z m * r) * (inject_Z m * r) -> (ceil_sqrt_div x r <= m)%Z.
+Proof. intros Hr Hx Hm H. apply ceil_sqrt_div_iff; assumption. Qed.
+
+(* strictly below: the predecessor is too small *)
+Lemma ceil_sqrt_div_pred x r : 0 < r -> 0 <= x -> (1 <= ceil_sqrt_div x r)%Z ->
+  (inject_Z (ceil_sqrt_div x r - 1) * r) * (inject_Z (ceil_sqrt_div x r - 1) * r) < x.
+Proof.
+  intros Hr Hx H1. apply Qnot_le_lt. intro H.
+  apply (ceil_sqrt_div_iff x r (ceil_sqrt_div x r - 1) Hr Hx) in H; lia.
+Qed.
+
+(* ---------------------------------------------------------------------------------------------- *)
+(* squares *)
+Lemma sq_le_mono x y : 0 <= x -> x <= y -> x * x <= y * y.
+Proof.
+  intros Hx Hxy. apply Qle_trans with (y * x).
+  - apply Qmult_le_compat_r; [exact Hxy|exact Hx].
+  - rewrite (Qmult_comm y x). apply Qmult_le_compat_r; lra.
+Qed.
+
+Lemma sq_lt_cancel x y : 0 <= y -> x * x < y * y -> x < y.
+Proof.
+  intros Hy H. apply Qnot_le_lt. intro L. pose proof (sq_le_mono y x Hy L). lra.
+Qed.
+
+Lemma mul_pos_lt_cancel_l a x y : 0 < a -> a * x < a * y -> x < y.
+Proof. intros Ha H. apply (Qmult_lt_l x y a Ha). exact H. Qed.
+
+Lemma inject_Z_mul_lt_cancel (k m : Z) r : 0 < r -> inject_Z k * r < inject_Z m * r -> (k < m)%Z.
+Proof. intros Hr H. apply Qmult_lt_r in H; [|exact Hr]. rewrite <- Zlt_Qlt in H. exact H. Qed.
+Lemma inject_Z_mul_le_cancel (k m : Z) r : 0 < r -> inject_Z k * r <= inject_Z m * r -> (k <= m)%Z.
+Proof. intros Hr H. apply Qmult_le_r in H; [|exact Hr]. rewrite <- Zle_Qle in H. exact H. Qed.
+
+(* Qmax of a raster multiple and the raster is a positive raster multiple *)
+Lemma Qmax_raster (c : Z) r : 0 < r ->
+  exists k, (1 <= k)%Z /\ (c <= k)%Z /\ Qmax (inject_Z c * r) r == inject_Z k * r /\
+            (k = 1%Z \/ k = c).
+Proof.
+  intro Hr. destruct (Qmax_spec (inject_Z c * r) r) as [[L E]|[L E]]; rewrite E.
+  - exists 1%Z. split; [lia|]. split.
+    + apply (inject_Z_mul_le_cancel c 1 r Hr). change (inject_Z 1) with 1. lra.
+    + split; [change (inject_Z 1) with 1; ring|left; reflexivity].
+  - exists c. assert ((1 < c)%Z).
+    { apply (inject_Z_mul_lt_cancel 1 c r Hr). change (inject_Z 1) with 1. lra. }
+    split; [lia|]. split; [lia|]. split; [reflexivity|right; reflexivity].
+Qed.
+
+(* ---------------------------------------------------------------------------------------------- *)
+(* calculate_shortest_params_for_area *)
+Section Shortest.
+Variables (area S G R : Q).
+Hypothesis HS : 0 < S.
+Hypothesis HG : 0 < G.
+Hypothesis HR : 0 < R.
+
+Definition sp_rise1 : Q := Qmax (inject_Z (ceil_sqrt_div (Qabs area / S) R) * R) R.
+
+Lemma absS_nonneg : 0 <= Qabs area / S.
+Proof. apply Qdiv_pos_nonneg; [apply Qabs_nonneg|exact HS]. Qed.
+
+Lemma rise1_facts : exists k, (1 <= k)%Z /\ sp_rise1 == inject_Z k * R /\
+  Qabs area / S <= sp_rise1 * sp_rise1 /\
+  ((2 <= k)%Z -> (inject_Z (k - 1) * R) * (inject_Z (k - 1) * R) < Qabs area / S).
+Proof.
+  unfold sp_rise1. set (n := ceil_sqrt_div (Qabs area / S) R).
+  pose proof (ceil_sqrt_div_nonneg (Qabs area / S) R) as Hn. fold n in Hn.
+  pose proof (ceil_sqrt_div_spec (Qabs area / S) R HR absS_nonneg) as Hsp. fold n in Hsp.
+  destruct (Qmax_raster n R HR) as [k [Hk1 [Hnk [E Hor]]]].
+  exists k. split; [exact Hk1|]. split; [exact E|]. split.
+  - rewrite E. eapply Qle_trans; [exact Hsp|]. apply sq_le_mono.
+    + apply Qmult_le_0_compat; [|lra]. change 0 with (inject_Z 0). rewrite <- Zle_Qle. exact Hn.
+    + apply Qmult_le_compat_r; [|lra]. rewrite <- Zle_Qle. exact Hnk.
+  - intro H2. destruct Hor as [H1|Hc]; [lia|]. subst k.
+    apply (ceil_sqrt_div_pred (Qabs area / S) R HR absS_nonneg). fold n. lia.
+Qed.
+
+Lemma rise1_pos : 0 < sp_rise1.
+Proof.
+  destruct rise1_facts as [k [Hk [E _]]]. rewrite E.
+  apply Qmult_lt_0_compat; [|exact HR]. change 0 with (inject_Z 0). rewrite <- Zlt_Qlt. lia.
+Qed.
+
+(* everything the theorems need about the returned tuple *)
+Lemma shortest_spec amp r fl f : shortest_params area S G R = (amp, r, fl, f) ->
+  f = r /\
+  (exists k, (1 <= k)%Z /\ r == inject_Z k * R) /\
+  (exists m, (0 <= m)%Z /\ fl == inject_Z m * R) /\
+  amp * (r + fl) == area /\
+  (* at most two rasters above any continuous-time trapezoid of this area: plateau amplitude h in
+     [0, G], area-equivalent duration T (area = h*T), ramps at least h/S *)
+  (forall h T, 0 <= h -> h <= G -> 0 < T -> Qabs area == h * T -> r + fl + f <= T + h / S + 2 * R).
+Proof.
+  unfold shortest_params. fold sp_rise1.
+  destruct rise1_facts as [k [Hk [Ek [Hsq Hpred]]]].
+  pose proof rise1_pos as Hr1.
+  assert (Ha : 0 <= Qabs area) by apply Qabs_nonneg.
+  destruct (Qltb (G + eps) (Qabs (area / sp_rise1))) eqn:B; intro H;
+    apply pair_equal_spec in H; destruct H as [H Hf]; apply pair_equal_spec in H; destruct H as [H Hfl];
+    apply pair_equal_spec in H; destruct H as [Hamp Hr]; subst amp r fl f.
+  - (* plateau branch *)
+    apply Qltb_lt in B. rewrite (Qabs_div_pos _ _ Hr1) in B.
+    pose proof eps_nonneg as He.
+    assert (B1 : G * sp_rise1 < Qabs area).
+    { apply (Qlt_div_iff (Qabs area) sp_rise1 G Hr1). lra. }
+    set (e := ceil_raster (Qabs area / G) R).
+    assert (He1 : Qabs area / G <= e) by (apply ceil_raster_ge; exact HR).
+    assert (He2 : e < Qabs area / G + R) by (apply ceil_raster_lt; exact HR).
+    assert (Hr1e : sp_rise1 < e).
+    { eapply Qlt_le_trans; [|exact He1]. apply Qlt_div_iff; [exact HG|]. lra. }
+    assert (Hepos : 0 < e) by lra.
+    assert (HaGe : Qabs area <= G * e).
+    { apply (Qdiv_le_iff (Qabs area) G e HG) in He1. lra. }
+    set (ec := Qceiling (Qabs area / G / R)).
+    assert (Eec : e == inject_Z ec * R) by reflexivity.
+    assert (Hkec : (k < ec)%Z).
+    { apply (inject_Z_mul_lt_cancel k ec R HR). rewrite <- Ek, <- Eec. exact Hr1e. }
+    set (amp := area / e).
+    assert (Eamp : Qabs amp == Qabs area / e) by (apply Qabs_div_pos; exact Hepos).
+    assert (HampG : Qabs amp <= G).
+    { rewrite Eamp. apply Qdiv_le_iff; [exact Hepos|]. lra. }
+    set (t := Qabs amp / S).
+    assert (Htr1 : t <= sp_rise1).
+    { unfold t. apply Qdiv_le_iff; [exact HS|]. rewrite Eamp. apply Qdiv_le_iff; [exact Hepos|].
+      apply (Qdiv_le_iff (Qabs area) S _ HS) in Hsq.
+      apply Qle_trans with (sp_rise1 * sp_rise1 * S); [exact Hsq|].
+      assert (sp_rise1 * sp_rise1 <= sp_rise1 * e).
+      { rewrite (Qmult_comm sp_rise1 e). apply Qmult_le_compat_r; lra. }
+      assert (X : sp_rise1 * S * e == sp_rise1 * e * S) by ring. rewrite X.
+      apply Qmult_le_compat_r; lra. }
+    assert (HtG : t <= G / S).
+    { unfold t. apply Qdiv_le_iff; [exact HS|]. rewrite (Qdiv_mul G S); lra. }
+    assert (Hc1 : ceil_raster t R <= sp_rise1).
+    { rewrite Ek. apply ceil_raster_least; [exact HR|]. rewrite <- Ek. exact Htr1. }
+    assert (Hc2 : ceil_raster t R < t + R) by (apply ceil_raster_lt; exact HR).
+    destruct (Qmax_raster (Qceiling (t / R)) R HR) as [k2 [Hk2 [_ [E2 _]]]].
+    fold (ceil_raster t R) in E2.
+    set (r2 := Qmax (ceil_raster t R) R) in *.
+    assert (HRr1 : R <= sp_rise1).
+    { rewrite Ek. rewrite <- (Qmult_1_l R) at 1. apply Qmult_le_compat_r; [|lra].
+      change 1 with (inject_Z 1). rewrite <- Zle_Qle. exact Hk. }
+    assert (Hr2 : r2 <= sp_rise1).
+    { unfold r2. destruct (Qmax_case (ceil_raster t R) R) as [X|X]; rewrite X; assumption. }
+    assert (HG_S : 0 < G / S) by (apply Qlt_div_iff; [exact HS|lra]).
+    assert (Hr2b : r2 <= G / S + R).
+    { unfold r2. destruct (Qmax_case (ceil_raster t R) R) as [X|X]; rewrite X; lra. }
+    assert (Hk2k : (k2 <= k)%Z).
+    { apply (inject_Z_mul_le_cancel k2 k R HR). rewrite <- E2, <- Ek. exact Hr2. }
+    split; [reflexivity|]. split; [exists k2; split; assumption|]. split.
+    { exists (ec - k2)%Z. split; [lia|]. unfold Z.sub. rewrite inject_Z_plus, inject_Z_opp.
+      rewrite E2, Eec. ring. }
+    split.
+    { unfold amp. field. lra. }
+    intros h T Hh0 HhG HT Earea.
+    (* e + r2 < |area|/G + G/S + 2R <= T + h/S + 2R *)
+    assert (Hgoal : Qabs area / G + G / S <= T + h / S).
+    { (* area*S > G^2, hence T*S > G *)
+      assert (HTS : G < T * S).
+      { apply (Qdiv_le_iff (Qabs area) S _ HS) in Hsq.
+        (* |area| > G*rise1, |area| <= rise1^2*S  =>  G < rise1*S ... and |area| = h*T <= G*T *)
+        assert (H1 : G < sp_rise1 * S).
+        { apply (mul_pos_lt_cancel_l sp_rise1); [exact Hr1|].
+          assert (X : sp_rise1 * (sp_rise1 * S) == sp_rise1 * sp_rise1 * S) by ring. rewrite X.
+          rewrite (Qmult_comm sp_rise1 G). lra. }
+        (* G*rise1 < h*T <= G*T => rise1 < T *)
+        assert (H2 : sp_rise1 < T).
+        { apply (mul_pos_lt_cancel_l G); [exact HG|].
+          apply Qlt_le_trans with (Qabs area); [exact B1|]. rewrite Earea.
+          apply Qmult_le_compat_r; lra. }
+        apply Qlt_trans with (sp_rise1 * S); [exact H1|]. apply Qmult_lt_r; assumption. }
+      (* (G-h)*(T*S - G) >= 0 *)
+      assert (P : 0 <= (G - h) * (T * S - G)) by (apply Qmult_le_0_compat; lra).
+      assert (E1 : Qabs area / G + G / S == (h * T * S + G * G) / (G * S)).
+      { rewrite Earea. field. split; lra. }
+      assert (E2' : T + h / S == (T * S * G + h * G) / (G * S)) by (field; split; lra).
+      rewrite E1, E2'.
+      assert (HGS : 0 < G * S) by (apply Qmult_lt_0_compat; assumption).
+      apply Qdiv_le_iff; [exact HGS|]. rewrite Qdiv_mul; [|lra].
+      assert (X : (G - h) * (T * S - G) == T * S * G + h * G - (h * T * S + G * G)) by ring.
+      rewrite X in P. lra. }
+    fold e r2. lra.
+  - (* triangle branch *)
+    split; [reflexivity|]. split; [exists k; split; assumption|]. split.
+    { exists 0%Z. split; [lia|]. change (inject_Z 0) with 0. ring. }
+    split.
+    { field. lra. }
+    intros h T Hh0 HhG HT Earea.
+    assert (Hy : 0 <= h / S) by (apply Qdiv_pos_nonneg; assumption).
+    destruct (Z.eq_dec k 1) as [K1|K1].
+    + subst k. change (inject_Z 1) with 1 in Ek. rewrite Ek. lra.
+    + assert (K2 : (2 <= k)%Z) by lia. specialize (Hpred K2).
+      set (u := inject_Z (k - 1) * R) in *.
+      assert (Hu : 0 <= u).
+      { unfold u. apply Qmult_le_0_compat; [|lra]. change 0 with (inject_Z 0). rewrite <- Zle_Qle. lia. }
+      assert (Eu : sp_rise1 == u + R).
+      { rewrite Ek. unfold u, Z.sub. rewrite inject_Z_plus, inject_Z_opp. change (inject_Z 1) with 1. ring. }
+      (* u^2 < |area|/S = T*(h/S);  AM-GM: (T + y)^2 >= 4*T*y *)
+      set (y := h / S) in *.
+      assert (Ey : Qabs area / S == T * y).
+      { rewrite Earea. unfold y. field. lra. }
+      rewrite Ey in Hpred.
+      assert (AM : 4 * (T * y) <= (T + y) * (T + y)).
+      { assert (Q0 : 0 <= (T - y) * (T - y)).
+        { destruct (Qlt_le_dec (T - y) 0) as [N|N].
+          - assert (X : (T - y) * (T - y) == (y - T) * (y - T)) by ring. rewrite X.
+            apply Qmult_le_0_compat; lra.
+          - apply Qmult_le_0_compat; lra. }
+        assert (X : (T - y) * (T - y) == (T + y) * (T + y) - 4 * (T * y)) by ring.
+        rewrite X in Q0. lra. }
+      assert (L : 2 * u < T + y).
+      { apply sq_lt_cancel; [lra|].
+        assert (X : 2 * u * (2 * u) == 4 * (u * u)) by ring. rewrite X. lra. }
+      rewrite Eu. lra.
+Qed.
+
+End Shortest.
+
+(* ---------------------------------------------------------------------------------------------- *)
+(* the `x or y` defaults of the ramps *)
+Definition rise0_of (a : targs) : option Q := por (a_rise a) (a_fall a).
+Definition fall0_of (a : targs) : option Q := por (a_fall a) (rise0_of a).
+
+Lemma por_None x y : por x y = None <-> (x = None \/ exists v, x = Some v /\ v == 0) /\ y = None.
+Proof.
+  unfold por. destruct x as [v|].
+  - destruct (Qeq_bool v 0) eqn:E.
+    + apply Qeq_bool_eq in E. split.
+      * intro H. split; [right; exists v; split; [reflexivity|exact E]|exact H].
+      * intros [_ H]. exact H.
+    + split; [discriminate|]. intros [[H|[w [H Hw]]] _]; [discriminate|].
+      injection H as <-. apply Qeq_eq_bool in Hw. congruence.
+  - split; [intro H; split; [left; reflexivity|exact H]|intros [_ H]; exact H].
+Qed.
+
+Lemma por_Some_nz x y v : x = Some v -> ~ v == 0 -> por x y = Some v.
+Proof.
+  intros -> H. unfold por. destruct (Qeq_bool v 0) eqn:E; [|reflexivity].
+  apply Qeq_bool_eq in E. contradiction.
+Qed.
+
+Lemma rise0_None_fall0 a : rise0_of a = None -> fall0_of a = None.
+Proof.
+  intro H. unfold fall0_of. rewrite H. unfold rise0_of in H. apply por_None in H.
+  destruct H as [_ Hf]. rewrite Hf. reflexivity.
+Qed.
+
+Lemma rise0_Some_fall0 a r : rise0_of a = Some r -> exists f, fall0_of a = Some f.
+Proof.
+  intro H. unfold fall0_of. rewrite H. unfold por. destruct (a_fall a) as [f|].
+  - destruct (Qeq_bool f 0); eexists; reflexivity.
+  - eexists; reflexivity.
+Qed.
+
+(* ---------------------------------------------------------------------------------------------- *)
+(* inversion of the three calculation paths *)
+Lemma OK_inj4 {A B C D : Type} (a a' : A) (b b' : B) (c c' : C) (d d' : D) :
+  @OK (A * B * C * D) (a, b, c, d) = OK (a', b', c', d') -> a = a' /\ b = b' /\ c = c' /\ d = d'.
+Proof. intro H. inversion H. repeat split; reflexivity. Qed.
+
+Lemma area_path_inv A dur ft r0 f0 G S R amp ro fl fo :
+  area_path A dur ft r0 f0 G S R = OK (amp, ro, fl, fo) ->
+  (exists d a' r fls f, dur = Some d /\ ft = None /\ r0 = None /\
+      shortest_params A S G R = (a', r, fls, f) /\ r + fls + f <= d /\ fl = d - r - f /\
+      ~ r / 2 + f / 2 + fl == 0 /\ amp = A / (r / 2 + f / 2 + fl) /\ ro = Some r /\ fo = Some f) \/
+  (exists d r f, dur = Some d /\ ft = None /\ r0 = Some r /\
+      f = match f0 with None => r | Some f => f end /\ r + eps < d /\ r + f <= d /\ fl = d - r - f /\
+      ~ r / 2 + f / 2 + fl == 0 /\ amp = A / (r / 2 + f / 2 + fl) /\ ro = Some r /\ fo = Some f) \/
+  (exists t r f, ft = Some t /\ r0 = Some r /\ f0 = Some f /\ fl = t /\
+      ~ r / 2 + f / 2 + t == 0 /\ amp = A / (r / 2 + f / 2 + t) /\ ro = Some r /\ fo = Some f) \/
+  (exists r f, dur = None /\ ft = None /\ shortest_params A S G R = (amp, r, fl, f) /\
+      ro = Some r /\ fo = Some f).
+Proof.
+  unfold area_path. cbv zeta. destruct dur as [d|], ft as [t|].
+  - (* flat_time given (duration ignored) *)
+    destruct r0 as [r|]; [|discriminate]. destruct f0 as [f|]; [|discriminate].
+    destruct (isz _) eqn:Z; [discriminate|]. apply isz_false in Z.
+    intro H. apply OK_inj4 in H. destruct H as (<- & <- & <- & <-). right. right. left. exists t, r, f. repeat split; auto.
+  - destruct r0 as [r|].
+    + destruct (Qle_bool d (r + eps)) eqn:L; [discriminate|]. apply Qle_bool_false in L.
+      set (f := match f0 with None => r | Some f => f end).
+      destruct (isz (d - (1 # 2) * r - (1 # 2) * f)) eqn:Z1; [discriminate|].
+      destruct (Qle_bool (r + f) d && _) eqn:P; [|discriminate]. cbn [negb].
+      apply andb_true_iff in P. destruct P as [P1 _]. apply Qle_bool_iff in P1.
+      destruct (isz (r / 2 + f / 2 + (d - r - f))) eqn:Z; [discriminate|]. apply isz_false in Z.
+      intro H. apply OK_inj4 in H. destruct H as (<- & <- & <- & <-). right. left. exists d, r, f. repeat split; auto.
+    + destruct (shortest_params A S G R) as [[[a' r] fls] f] eqn:SP.
+      destruct (Qltb d (r + fls + f)) eqn:L; [discriminate|]. apply Qltb_false in L.
+      destruct (isz _) eqn:Z; [discriminate|]. apply isz_false in Z.
+      intro H. apply OK_inj4 in H. destruct H as (<- & <- & <- & <-). left. exists d, a', r, fls, f. repeat split; auto.
+  - destruct r0 as [r|]; [|discriminate]. destruct f0 as [f|]; [|discriminate].
+    destruct (isz _) eqn:Z; [discriminate|]. apply isz_false in Z.
+    intro H. apply OK_inj4 in H. destruct H as (<- & <- & <- & <-). right. right. left. exists t, r, f. repeat split; auto.
+  - destruct (shortest_params A S G R) as [[[a' r] fls] f] eqn:SP.
+    intro H. apply OK_inj4 in H. destruct H as (<- & <- & <- & <-). right. right. right. exists r, f. repeat split; auto.
+Qed.
+
+Lemma flat_area_path_inv fa dur ft r0 f0 amp ro fl fo :
+  flat_area_path fa dur ft r0 f0 = OK (amp, ro, fl, fo) ->
+  dur = None /\ ft = Some fl /\ ~ fl == 0 /\ amp = fa / fl /\ ro = r0 /\ fo = f0.
+Proof.
+  unfold flat_area_path. destruct dur; [discriminate|]. destruct ft as [t|]; [|discriminate].
+  destruct (isz t) eqn:Z; [discriminate|]. apply isz_false in Z.
+  intro H. apply OK_inj4 in H. destruct H as (<- & <- & <- & <-). repeat split; auto.
+Qed.
+
+Definition amp_chosen_rise (amp S R : Q) : Q :=
+  let r0 := ceil_raster (Qabs amp / S) R in if isz r0 then R else r0.
+
+Lemma amplitude_path_inv h dur ft r0 f0 S R amp ro fl fo :
+  amplitude_path h dur ft r0 f0 S R = OK (amp, ro, fl, fo) ->
+  amp = h /\
+  ((r0 = None /\ ro = Some (amp_chosen_rise h S R) /\ fo = Some (amp_chosen_rise h S R)) \/
+   (r0 <> None /\ ro = r0 /\ fo = f0)) /\
+  ((exists d r f, dur = Some d /\ ft = None /\ ro = Some r /\ fo = Some f /\ r + f - eps <= d /\
+                  fl = Qmax (d - r - f) 0) \/
+   (dur = None /\ ft = Some fl)).
+Proof.
+  unfold amplitude_path. fold (amp_chosen_rise h S R).
+  destruct r0 as [r0v|]; cbn beta iota zeta; destruct dur as [d|], ft as [t|]; try discriminate.
+  - destruct f0 as [f|]; [|discriminate].
+    destruct (Qltb d (r0v + f - eps)) eqn:L; [discriminate|]. apply Qltb_false in L.
+    intro H. apply OK_inj4 in H. destruct H as (<- & <- & <- & <-).
+    split; [reflexivity|]. split; [right; split; [discriminate|split; reflexivity]|].
+    left. exists d, r0v, f. repeat split; auto.
+  - intro H. apply OK_inj4 in H. destruct H as (<- & <- & <- & <-).
+    split; [reflexivity|]. split; [right; split; [discriminate|split; reflexivity]|].
+    right. split; reflexivity.
+  - destruct (Qltb d _) eqn:L; [discriminate|]. apply Qltb_false in L.
+    intro H. apply OK_inj4 in H. destruct H as (<- & <- & <- & <-).
+    split; [reflexivity|]. split; [left; repeat split; reflexivity|].
+    left. exists d, (amp_chosen_rise h S R), (amp_chosen_rise h S R). repeat split; auto.
+  - intro H. apply OK_inj4 in H. destruct H as (<- & <- & <- & <-).
+    split; [reflexivity|]. split; [left; repeat split; reflexivity|].
+    right. split; reflexivity.
+Qed.
+
+(* ---------------------------------------------------------------------------------------------- *)
+(* inversion of the tail and of make_trap *)
+Lemma finish_inv amp r0 fl f0 G S R d g : finish (amp, r0, fl, f0) G S R d = OK g ->
+  t_amplitude g = amp /\ t_flat g = fl /\ t_delay g = d /\
+  t_area g = amp * (fl + t_rise g / 2 + t_fall g / 2) /\ t_flat_area g = amp * fl /\
+  match r0, f0 with
+  | None, None => t_rise g = shortest_rise_time amp S R /\ t_fall g = shortest_rise_time amp S R
+  | _, _ => r0 = Some (t_rise g) /\ f0 = Some (t_fall g)
+  end /\
+  ~ t_rise g == 0 /\ ~ t_fall g == 0 /\
+  Qabs amp <= G + eps /\ Qabs amp / t_rise g <= S * (1 + eps) /\ Qabs amp / t_fall g <= S * (1 + eps).
+Proof.
+  unfold finish.
+  set (rf := match r0, f0 with
+             | None, None => let r := shortest_rise_time amp S R in (Some r, Some r)
+             | _, _ => (r0, f0) end).
+  assert (RF : forall r f, rf = (Some r, Some f) ->
+     match r0, f0 with
+     | None, None => r = shortest_rise_time amp S R /\ f = shortest_rise_time amp S R
+     | _, _ => r0 = Some r /\ f0 = Some f end).
+  { unfold rf. intros r f. destruct r0, f0; intro H; apply pair_equal_spec in H; destruct H as [H1 H2];
+      try (split; [exact H1|exact H2]); try discriminate.
+    injection H1 as <-. injection H2 as <-. split; reflexivity. }
+  destruct rf as [ro fo].
+  destruct (Qltb (G + eps) (Qabs amp)) eqn:C1; [discriminate|]. apply Qltb_false in C1.
+  destruct ro as [r|]; [|discriminate].
+  destruct (isz r) eqn:Z1; [discriminate|]. apply isz_false in Z1.
+  destruct (Qltb _ (Qabs amp / r)) eqn:C2; [discriminate|]. apply Qltb_false in C2.
+  destruct fo as [f|]; [|discriminate].
+  destruct (isz f) eqn:Z2; [discriminate|]. apply isz_false in Z2.
+  destruct (Qltb _ (Qabs amp / f)) eqn:C3; [discriminate|]. apply Qltb_false in C3.
+  intro H. injection H as <-. cbn [t_amplitude t_rise t_flat t_fall t_area t_flat_area t_delay].
+  specialize (RF r f eq_refl). repeat split; auto.
+Qed.
+
+Definition delay_of (a : targs) : Q := opt_default (a_delay a) trap_default_delay.
+
+Definition path_of (a : targs) : tresult path_out :=
+  match a_area a, a_flat_area a, a_amplitude a with
+  | Some area, None, None =>
+    area_path area (a_duration a) (a_flat_time a) (rise0_of a) (fall0_of a)
+              (eff_max_grad a) (eff_max_slew a) (raster_of a)
+  | None, Some fa, None => flat_area_path fa (a_duration a) (a_flat_time a) (rise0_of a) (fall0_of a)
+  | None, None, Some amp =>
+    amplitude_path amp (a_duration a) (a_flat_time a) (rise0_of a) (fall0_of a) (eff_max_slew a) (raster_of a)
+  | _, _, _ => Err E_must_supply
+  end.
+
+Lemma make_trap_inv a g : make_trap a = OK g ->
+  0 < eff_max_grad a /\ 0 < eff_max_slew a /\ 0 < raster_of a /\
+  exists p, path_of a = OK p /\
+            finish p (eff_max_grad a) (eff_max_slew a) (raster_of a) (delay_of a) = OK g.
+Proof.
+  unfold make_trap, path_of. fold (rise0_of a). fold (fall0_of a). fold (delay_of a).
+  destruct (a_channel_ok a); [|discriminate]. cbn [negb].
+  destruct (Qltb 0 (eff_max_grad a)) eqn:HG; [|discriminate].
+  destruct (Qltb 0 (eff_max_slew a)) eqn:HS; [|discriminate].
+  destruct (Qltb 0 (raster_of a)) eqn:HR; [|discriminate]. cbn [andb negb].
+  apply Qltb_lt in HG, HS, HR.
+  intro H. split; [exact HG|]. split; [exact HS|]. split; [exact HR|].
+  destruct (a_area a), (a_flat_area a), (a_amplitude a); try discriminate.
+  all: match type of H with (if ?c then _ else _) = _ => destruct c; [discriminate|] end.
+  all: match type of H with match ?p with OK _ => _ | Err _ => _ end = _ =>
+         destruct p as [p'|] eqn:P; [|discriminate] end.
+  all: exists p'; split; [reflexivity|exact H].
 Qed.
